@@ -1,5 +1,5 @@
-(* C01_session_nontight - a whole connection (all encodings of send_rect; Tight rectangles, their four
-   streams, the stream id in the control byte and the <12-byte bypass are NOT part of this model): SetEncodings / SetPixelFormat changes and framebuffer updates
+(* C01_session_nontight - a whole connection (all encodings of send_rect; Tight rectangles and their wire
+   layer are in TightWire.v, the whole connection with every encoding in Connection.v): SetEncodings / SetPixelFormat changes and framebuffer updates
    in any order; the payloads of Zlib (6), ZRLE (16) and Ultra (9) rectangles go through
    compressors whose state persists for the connection (one per encoding, as in rfbClientRec:
    compStream, zrleData->zs); LZO (Ultra) is a separate, stateless oracle.
